@@ -39,7 +39,7 @@ var c04Sanitizers = []string{
 func C04(c *Ctx) {
 	r := c.R
 	r.Explain = "Decided statically with a may-reach information-flow (taint) analysis over packages airgapped and dkg (field-based heap for struct types, interprocedural through module functions, dependencies summarised by a sanitizer table): (R1) no value derived from the long-term private key, the seed, the password key, the private share, the private keyring encoding or the kyber generator object reaches an output — the fields of the result Operation, the payload of a board-bound message, or a log/print call — except through a construct that is public by construction (public key, partial signature, ciphertext, commitments, PubPolyBytes, at-rest encryption); " +
-		"(R2) at rest: every database write of key/share-derived data goes through encrypt(), and the three loaders go through decrypt() and stop on its error (AES-GCM authentication failure = wrong password); (R3) addressee binding: the deal for index i is encrypted with GetParticipantByIndex(i)'s key and addressed to that same participant; " +
+		"(R2) at rest: every database write of key/share-derived data goes through encrypt(), and the three loaders go through decrypt() and stop on its error (AES-GCM authentication failure = wrong password); (R3) addressee binding: the deal for index i is encrypted with GetParticipantByIndex(i)'s key and addressed to that same participant, and the keys registered in a round's instance are freshly decoded from that round's own participant list, entry by entry (no key remembered from another round); " +
 		"(R4) round separation: every entropy input of a round (suite seed, dealer polynomial reader) must derive from the round identifier and the base seed. " +
 		"NOT decided: absence of secrets under every encoding in real outputs (needs the outputs), IND-CCA of ECIES/AES-GCM, that different seeds give unrelated keys."
 	r.Trusted = []string{"the sanitizer table (constructs public by construction in kyber)", "AES-GCM/scrypt/ECIES", "VTA call graph", "errors do not carry secret bytes"}
@@ -290,6 +290,42 @@ func c04Addressee(c *Ctx) {
 			}
 		})
 		r.Check(ok, "C04/R3", "airgapped.deals-handler:addressed-to", "the message carrying the deal is addressed to the participant it was encrypted for", c.Pos(fn.Pos()), "o.To is not GetParticipantByIndex(index) of the same index")
+	}
+	// the keys the deals are encrypted to are the ones announced for THIS round: every key registered in the round's
+	// instance is a fresh point decoded from the DkgPubKey of the same entry of this operation's participant list
+	if fn := c.Fn("C04/R3", "airgapped", "Machine", "handleStateDkgCommitsAwaitConfirmations"); fn != nil {
+		stores := callsIn(fn, "dkg.(DKG).StorePubKey")
+		okAll := len(stores) >= 1
+		detail := sprintf("%d StorePubKey calls", len(stores))
+		for _, sp := range stores {
+			a := sp.Common().Args
+			pk := ssax.Resolve(a[len(a)-1])
+			pcall, isCall := pk.(*ssa.Call)
+			if !isCall || !pcall.Common().IsInvoke() || pcall.Common().Method.Name() != "Point" || !strings.HasSuffix(npath(pcall.Common().Value), ".baseSuite") {
+				okAll, detail = false, "the key registered is "+npath(a[len(a)-1])+", not a point freshly created from the base suite for this entry (a key remembered from another round would be used)"
+				continue
+			}
+			// decoded from the same entry, successfully, before it is stored
+			var dec ssa.CallInstruction
+			for _, u := range ssax.Calls(fn, false, func(ci ssa.CallInstruction) bool {
+				return ci.Common().IsInvoke() && ci.Common().Method.Name() == "UnmarshalBinary" && ssax.Resolve(ci.Common().Value) == pk
+			}) {
+				dec = u
+			}
+			entry := strings.TrimSuffix(npath(a[1]), ".Username")
+			if dec == nil || npath(dec.Common().Args[0]) != entry+".DkgPubKey" || !strings.HasPrefix(entry, "json(o.Payload)[") {
+				okAll, detail = false, "the registered key is not decoded from the DkgPubKey of the entry whose Username/ParticipantId it is stored under"
+				continue
+			}
+			ne := ssax.NilErrEdgesOfCall(fn, dec)
+			if len(ne) == 0 || ssax.ReachableAvoiding(fn, sp.(ssa.Instruction), ne, nil) {
+				okAll, detail = false, "StorePubKey is reachable although decoding the key failed"
+			}
+			if npath(a[2]) != entry+".ParticipantId" {
+				okAll, detail = false, "the key is stored under "+npath(a[2])+", not under the id of the same entry"
+			}
+		}
+		r.Check(okAll, "C04/R3", "airgapped.commits-handler:round-keys", "the public keys of a round's instance are decoded from this round's participant list, entry by entry", c.Pos(fn.Pos()), detail)
 	}
 }
 
